@@ -60,6 +60,8 @@ def check_row(ctx, clause, case, vals, exp):
 
 def run(ctx):
     lc = common.load_repo(ctx.repo)
+    from .. import objmodel
+    defaults = objmodel.Defaults(lc)
     ctx.rule = ("(M) every sequence over {K,E,G,P,Y,L} up to MaxLen (and over {K,E,G} up to a longer bound) x every window 1..N: "
                 "FlanksAgree, CodeIsDoc, WholeWindow, DeltaFromProfiles; (G) every state x every window 1..N+3 replayed into "
                 "get_linear_NCPR/FCR/sigma/hydropathy and the default get_linear_sequence_composition, expected = TLC's exact "
@@ -119,7 +121,11 @@ def run(ctx):
         ws = {1, N, N + 1, N + 2, N + 3, ctx.rng.randint(1, N), ctx.rng.randint(1, N), min(N, 5), min(N, 6), min(N, 4), min(N, 8)}
         for w in sorted(ws):
             for stat, name in STAT_CALL.items():
-                out = common.call(getattr(o, name), w)
+                wa = w
+                if ctx.rng.random() < 0.25:
+                    import numpy as np
+                    wa = np.int64(w)
+                out = common.call(getattr(o, name), wa)
                 e = {"q": "linear", "stat": stat, "w": w, "exc": out[0] != "ok", "pos": [], "rv": []}
                 if out[0] == "ok":
                     pr = as_profile(out[1], N)
@@ -133,11 +139,24 @@ def run(ctx):
             for default in (True, False):
                 if default:
                     groups, arg = DEFAULT_GROUPS, None
+                    if ctx.rng.random() < 0.5:
+                        # an explicitly passed empty list, in a process where the default groups were not used yet
+                        arg = []
+                        defaults.reset()
                 else:
                     k = ctx.rng.randint(1, 4)
                     groups = [ctx.rng.sample(common.AA, ctx.rng.randint(1, 6)) for _ in range(k)]
                     arg = [[c.lower() if ctx.rng.random() < 0.3 else c for c in g] for g in groups]
-                out = common.call(o.get_linear_sequence_composition, w, arg) if arg is not None else common.call(o.get_linear_sequence_composition, w)
+                    if ctx.rng.random() < 0.4:
+                        # a residue named twice (also in the other case), a group given as a string or a tuple
+                        arg = [g + [ctx.rng.choice(g).lower(), g[0]] for g in arg]
+                        form = ctx.rng.choice(["list", "str", "tuple"])
+                        arg = ["".join(g) if form == "str" else tuple(g) if form == "tuple" else g for g in arg]
+                wa = w
+                if ctx.rng.random() < 0.3:
+                    import numpy as np
+                    wa = np.int64(w)
+                out = common.call(o.get_linear_sequence_composition, wa, arg) if arg is not None else common.call(o.get_linear_sequence_composition, wa)
                 e = {"q": "lincomp", "w": w, "default": default, "groups": groups, "exc": out[0] != "ok", "pos": [], "rows": []}
                 if out[0] == "ok":
                     cp = as_composition(out[1], N, len(groups))
@@ -165,6 +184,7 @@ def run(ctx):
             for e in tr["ev"]:
                 ctx.nontrivial.add(("".join(tr["seq"]), e["w"]))
     ctx.sample({"trace": {"seq": seqs[0], "ev": [{"q": e["q"], "w": e["w"], "stat": e.get("stat")} for e in trs[0]["ev"][:5]]}})
+    defaults.reset()
     ctx.assumptions += ["a one-group composition may come back as a 1-D row", "window sizes <= 0 are outside the statement",
                         "1e-9 relative tolerance"]
 
